@@ -190,6 +190,64 @@ def build(unit):
                 else:
                     errors.append(f"anchor lost: {ex}")
             continue
+        if st.startswith("//@sites"):
+            # R6: every call site `<call>E)` in the file becomes `fn <name>_<k>(<vars of E>: usize, <reader>) -> (cap: usize)
+            # <clauses> { let cap: usize = E; cap }` -- the argument expression E is copied verbatim
+            d = kv(st)
+            clauses = []
+            i += 1
+            while i < len(lines) and lines[i].strip() != "//@end":
+                l = lines[i].strip()
+                if l.startswith("//@|"):
+                    clauses.append("    " + l[4:].rstrip())
+                elif l:
+                    errors.append(f"{unit.path}:{i+1}: unexpected line inside //@sites: {l}")
+                i += 1
+            i += 1
+            try:
+                src, masked = load(d["file"])
+                call = d["call"]
+                reader_param = d["reader"]
+                reader_name = reader_param.split(":")[0].strip()
+                skips = [x for x in d.get("skip", "").split(",") if x]
+                pos, k, found = 0, 0, 0
+                while True:
+                    at = masked.find(call, pos)
+                    if at < 0:
+                        break
+                    pos = at + len(call)
+                    open_idx = at + len(call) - 1
+                    depth, j = 0, open_idx
+                    while j < len(masked):
+                        if masked[j] == "(":
+                            depth += 1
+                        elif masked[j] == ")":
+                            depth -= 1
+                            if depth == 0:
+                                break
+                        j += 1
+                    expr = src[open_idx + 1:j].strip()
+                    if any(sk in expr for sk in skips):
+                        exlog["items"].append({"kind": "site-skipped", "file": d["file"], "line": extract.line_of(src, at), "expr": expr})
+                        continue
+                    found += 1
+                    idents = []
+                    for m in re.finditer(r"(?<![\w.])([A-Za-z_]\w*)\b(?!\s*(\(|::))", expr):
+                        name = m.group(1)
+                        if name in ("as", "usize", "u32", "u64", "u16", "u8", "self", reader_name) or name in idents:
+                            continue
+                        idents.append(name)
+                    params = ", ".join([f"{n}: usize" for n in idents] + [reader_param])
+                    out.append(f"// site {d['file']}:{extract.line_of(src, at)}\nfn {d['name']}_{k}({params}) -> (cap: usize)\n" + "\n".join(clauses) + "\n{\n    let cap: usize = " + expr + ";\n    cap\n}\n")
+                    exlog["items"].append({"kind": "site", "file": d["file"], "line": extract.line_of(src, at), "expr": expr,
+                                           "sha256": sha256_bytes(expr.encode())[:16]})
+                    k += 1
+                if found < int(d.get("min", "1")):
+                    errors.append(f"anchor lost: only {found} call sites of {call} in {d['file']} (expected at least {d.get('min', '1')})")
+                exlog["rules_applied"].append(f"R6 {d['file']}: {found} call sites of {call} turned into one contract function each (argument expression verbatim)")
+            except (FileNotFoundError, KeyError, ValueError) as ex:
+                errors.append(f"anchor lost: {ex}")
+            continue
         if st.startswith("//@unit"):
             i += 1
             continue
